@@ -282,6 +282,32 @@ fn run_inner(ex: &mut Exec<'_>, plan: &Plan) -> Result<(), Stop> {
             unsafe { ex.env().resize(plan.cfg.map_size) }.map_err(|e| Stop::Unevaluable(format!("resize back: {e}")))?;
         }
         leak_check(ex, base_fds, &base_scratch, &base_tmp, &what)?;
+        // a cancelled build retried on the very same builder object (closure replaced): sampled
+        if let Fault::CancelAt { n } = f {
+            if fired && si % 9 == 4 {
+                for st in &pending {
+                    ex.step(st)?;
+                }
+                let (r1, r2) = ex.raw_build_retry_same_builder(target.ix, target.n_trees, target.split_after, target.mem, target.seed, *n, &pending)?;
+                ex.out.stats.probe("retry_on_the_same_builder");
+                if matches!(r1, BuildResult::Err(ref k, _) if k == "BuildCancelled") {
+                    match r2 {
+                        BuildResult::Ok => check_valid_build(ex, &target, &format!("retry on the same builder after {what}"))?,
+                        BuildResult::Err(k, m) => {
+                            ex.report(&["C10"], "retry_failed", format!("retry on the same builder object (cancellation closure replaced) after {what} failed: {k}: {m}"))?;
+                            return Err(Stop::Unevaluable("retry failed".into()));
+                        }
+                        BuildResult::Panic(m) => {
+                            ex.report(&["C10"], "retry_panicked", format!("retry on the same builder object after {what} panicked: {m}"))?;
+                            return Err(Stop::Unevaluable("retry panicked".into()));
+                        }
+                    }
+                }
+                ex.world = ex.committed.clone();
+                abort_and_compare(ex, &format!("retry on the same builder after {what}"))?;
+                leak_check(ex, base_fds, &base_scratch, &base_tmp, &format!("retry on the same builder after {what}"))?;
+            }
+        }
         // clean retry (every failing scenario of a small enumeration, a sample of a large one)
         let failing = !matches!(res, BuildResult::Ok);
         if failing && (scenarios.len() <= 40 || si % 7 == 0) {
@@ -444,6 +470,12 @@ fn leak_check(ex: &mut Exec<'_>, base_fds: usize, base_scratch: &[String], base_
     let e: Vec<String> = dir_listing(&ex.dir).into_iter().filter(|n| n != "data.mdb" && n != "lock.mdb").collect();
     if !e.is_empty() {
         ex.report(&["C10"], "tmp_file_left", format!("{what}: the environment directory holds {e:?}"))?;
+    }
+    if let Some(work) = ex.tmpdir.parent() {
+        let extra: Vec<String> = dir_listing(work).into_iter().filter(|n| !matches!(n.as_str(), "env" | "scratch" | "image" | "upg" | "a-file")).collect();
+        if !extra.is_empty() {
+            ex.report(&["C10"], "tmp_file_left", format!("{what}: {extra:?} left next to the temp directory"))?;
+        }
     }
     let t = dir_listing(&crate::driver::workdir_base().join("tmp"));
     if t != base_tmp {
